@@ -25,6 +25,9 @@ META = {
 
 PREFIXES = ["", "@", "-", "~", "-@", "~@"]
 NAMES = ["a", "b.c", "x-y=1", "zzz", "A", "ax"]
+# tag names containing a v2 keyword as a substring (auto-detection must test whole words, not substrings)
+KW_NAMES = ["band", "nor", "knot", "a"]
+KW_UNIVERSE = ["band", "nor", "knot", "a", "and", "b"]
 
 
 def h_v1(sx):
@@ -39,7 +42,8 @@ def h_v1(sx):
         g = []
         parts = []
         for li in range(size):
-            name = NAMES[k % len(NAMES)]
+            names = KW_NAMES if sx.params.get("kw_names") else NAMES
+            name = names[k % len(names)]
             k += 1
             p = sx.choice("prefix:%d:%d" % (gi, li), list(range(len(PREFIXES))))
             p = p if isinstance(p, int) else p.concretize()
@@ -51,7 +55,8 @@ def h_v1(sx):
         groups.append(g)
         texts.append(",".join(parts))
     arg = texts if form == "list" else " ".join(texts)
-    tags, member = tagset(sx, UNIVERSE)
+    universe = KW_UNIVERSE if sx.params.get("kw_names") else UNIVERSE
+    tags, member = tagset(sx, universe)
     spec = T.cnf_formula(groups, member)
     try:
         expr = make_tag_expression(arg, proto)
@@ -60,7 +65,7 @@ def h_v1(sx):
         return {"arg": arg, "error": repr(e)}
     r = bool(expr.check(tags))
     det = lambda m: {"arg": arg, "protocol": proto.name, "impl": r, "parsed_as": type(expr).__module__,
-                     "tags": [t for t in UNIVERSE if (sx.eval(sx.bool("has:" + t), m) if m is not None else sx.bool("has:" + t))]}
+                     "tags": [t for t in universe if (sx.eval(sx.bool("has:" + t), m) if m is not None else sx.bool("has:" + t))]}
     # known finding C08-F13: ONE unprefixed tag with a :limit suffix under auto_detect is read as the v2 literal "a:3"
     f13 = (proto is TagExpressionProtocol.AUTO_DETECT and sum(shape) == 1 and texts[0].lstrip("@").endswith(":3")
            and not groups[0][0][0])
@@ -132,6 +137,12 @@ def jobs(tier, seed):
                               {"shape": sh, "form": form, "protocol": proto, "limits": sum(sh) <= 3},
                               reach=["C08.v1-meaning(AND of OR, -/~ negate, @ optional)"], min_paths=10,
                               cost=12 ** sum(sh), validate=40, closure=False))
+    for sh in ([2], [1, 1], [2, 1]):
+        for form in ("list", "string"):
+            js.append(Job("v1kw.%s.%s.auto" % ("x".join(map(str, sh)), form), "props.c08:h_v1",
+                          {"shape": sh, "form": form, "protocol": "auto", "limits": False, "kw_names": True},
+                          reach=["C08.v1-meaning(AND of OR, -/~ negate, @ optional)"], min_paths=10,
+                          cost=6 ** sum(sh), validate=40, closure=False))
     trees = trees_for(tier, seed)
     n2 = 30 if tier == "quick" else 120
     step = max(1, len(trees) // n2)
